@@ -79,6 +79,21 @@ def cases(tier: str, seed: int) -> List[Dict[str, Any]]:
                 out.append({"kind": "probe", "op": name, "cfg": dict({k: v[0] for k, v in op.coords.items()}, dtype="float64", constraint=None,
                                                                    **({"fin": 5, "fout": 3} if "fin" in op.coords else {})),
                             "constraint": c, "seed": seed, "pre_dtype": pre, "fresh": True})
+    # module level: every module taking a constraint hands it to its functional form on EVERY forward path
+    # (e.g. the explicit-padding branch of Conv1d): full product constraint x path-selecting options
+    BINM = ["to_output_scale", None, "gmean", "hmean", "amean", "to_grad_input_scale", ""]
+    for c in BINM:
+        for pm, pad, bias in itertools.product(["zeros", "circular", "reflect", "replicate"], [0, 1, 2], [False, True]):
+            out.append({"kind": "module", "cls": "Conv1d", "seed": seed, "opt": {
+                "cin": 4, "cout": 2, "k": 3, "stride": 1, "padding": pad, "padding_mode": pm, "dilation": 1, "groups": 1, "bias": bias, "constraint": c}})
+        for bias, (fi, fo) in itertools.product([False, True], [(5, 3), (1, 8), (5, 8)]):
+            out.append({"kind": "module", "cls": "Linear", "seed": seed, "opt": {"fin": fi, "fout": fo, "bias": bias, "constraint": c}})
+            out.append({"kind": "module", "cls": "LinearReadout", "seed": seed, "opt": {"fin": fi, "fout": fo, "bias": bias, "constraint": c}})
+        for mult in (1.0, 0.25, 3.0):
+            out.append({"kind": "module", "cls": "GELU", "seed": seed, "opt": {"mult": mult, "constraint": c, "approximate": "none"}})
+            out.append({"kind": "module", "cls": "SiLU", "seed": seed, "opt": {"mult": mult, "constraint": c}})
+            for dim in (-1, 0, 1):
+                out.append({"kind": "module", "cls": "Softmax", "seed": seed, "opt": {"dim": dim, "mult": mult, "constraint": c}})
     # residual ops: forward and backward weights of each path are one value (fixed constraint)
     for tau in (1e-3, 0.25, 0.5, 1.0, 3.0, 1e3, None):
         out.append({"kind": "residual", "tau": tau})
@@ -102,6 +117,17 @@ def run_case(case: Dict[str, Any]) -> Dict[str, Any]:
 
     viol: List[Dict[str, str]] = []
     kind = case["kind"]
+    if kind == "module":
+        # module(options, constraint) == functional(options, constraint) on the module's own parameters, values and
+        # every gradient (oracle shared with C08; the functional side is decided by the probe cases above)
+        from checks import c08
+
+        r = c08._simple({"cls": case["cls"], "opt": case["opt"], "train": True, "batch": [2, 3], "seed": case["seed"]})
+        for v in r.get("violations", []):
+            v["key"] = "module|" + v["key"]
+        if "outcome" in r:
+            r["outcome"] = "module:" + r["outcome"]
+        return r
     if kind == "rules":
         from unit_scaling import constraints as C
 
